@@ -14,7 +14,7 @@
    Statements only. *)
 From Coq Require Import String.
 From Coq Require Import ZArith QArith List Bool Arith Permutation.
-From BS Require Import Core.Base Model.Aod Proofs.AodProofs Proofs.AodRoundTrip Proofs.AodSelect.
+From BS Require Import Core.Base Core.GridQ Model.Aod Proofs.AodProofs Proofs.AodRoundTrip Proofs.AodSelect Proofs.AodPre.
 Import ListNotations.
 
 Theorem C08_no_atom_lost_or_duplicated : forall st ps st',
@@ -135,6 +135,18 @@ Theorem C08_recognised_selected_transport_is_executable_and_delivers : forall T 
        occ_find p (occ st') = if has_pos p (spots_of (sel_tones ix (fst w0)) (sel_tones iy (snd w0))) then None else occ_find p O).
 Proof. exact recognised_transport_sel_executable. Qed.
 
+(* the hypotheses of the transport theorems follow from the documented preconditions: a grid with positive spacings has
+   strictly ascending coordinates, and strictly ascending in-range index lists then select pairwise different coordinates
+   (and no index twice) *)
+Theorem C08_positive_spacings_give_ascending_coordinates : forall g,
+  Forall (fun s => (0 < s)%Q) (xsp g) -> Forall (fun s => (0 < s)%Q) (ysp g) -> ascending_q (xpos g) /\ ascending_q (ypos g).
+Proof. exact positive_spacings_give_ascending_coordinates. Qed.
+Theorem C08_documented_preconditions_meet_the_hypotheses : forall nx ny ix iy (w : list Q * list Q),
+  length (fst w) = nx -> length (snd w) = ny -> ascending_q (fst w) -> ascending_q (snd w) ->
+  ascending_nat ix -> ascending_nat iy -> (forall i, In i ix -> (i < nx)%nat) -> (forall j, In j iy -> (j < ny)%nat) ->
+  wp_sel_ok nx ny ix iy w /\ NoDup ix /\ NoDup iy.
+Proof. exact documented_preconditions_give_wp_sel_ok. Qed.
+
 (* a CZ-move shaped program on a 2x1 selection: out along an L-shaped path, back along its reversal *)
 Example C08_example :
   let ALL := SSlice None None None in
@@ -160,3 +172,5 @@ Print Assumptions C08_transport_is_executable_and_delivers.
 Print Assumptions C08_recognised_transport_is_executable_and_delivers.
 Print Assumptions C08_selected_transport_is_executable_and_delivers.
 Print Assumptions C08_recognised_selected_transport_is_executable_and_delivers.
+Print Assumptions C08_positive_spacings_give_ascending_coordinates.
+Print Assumptions C08_documented_preconditions_meet_the_hypotheses.
